@@ -653,6 +653,9 @@ def run(ck):
     rule_h(ck, R)
     from . import c06 as _c06
     _c06.rule_decoder_state(ck, R, rule='C08.i')
+    # ... and on a length-prefixed channel the out-of-step mark means "a frame was dropped in mid-stream" and nothing else:
+    # an own frame behind an EBUSY / overflow / empty-frame call is received
+    _c06.rule_tcp_desync(ck, R, rule='C08.i')
     # own frames pass the own receiver: the payload plausibility table of the receiver (C07.b) admits every payload
     # class the emitters produce (write error responses with their 32-bit payload included)
     from . import c07
